@@ -158,6 +158,10 @@ def make_judges(ctx):
         else:
             d = dict(zip(('dtype', 'index', 'item'), ev.args))
             d.update(ev.kwargs)
+            if d.get('dtype') is int and ev.exc is not None and isinstance(ev.exc, (OverflowError, TypeError)) and affine_of(x) is not None and 1 <= x.n_word <= 16:
+                ctx.violation('read_raises', '%s(int, ...) of scaled %s (scale=%r, bias=%r) raised %s: %s' % (ev.op, R.dtype_fxp(*x.fmt()), x.scale, x.bias, type(ev.exc).__name__, str(ev.exc)[:100]), ev,
+                              key='scaled.read_raises')
+                return
             if ev.op == 'astype' and d.get('dtype') is not float:
                 return
             if ev.op == 'get_val' and d.get('dtype') is not None:
@@ -281,7 +285,7 @@ def make_judges(ctx):
 
 
 def floors(tier):
-    return [('route', r) for r in ('constructor', 'call', 'setitem', 'set_val', 'equal', 'like')] + [('read-huge-integer-bias',), ('inference-tolerance',)] + [('carrier', c) for c in ('int8', 'int16', 'int32', 'uint8', 'uint16', 'uint64', 'float32', 'float16', 'Fxp', 'Fxp-scaled', 'int', 'float', 'float64', 'list')] + [('read', 'get_val'), ('read', 'astype'), ('read', '__call__'), ('read', 'element'), ('inferred',), ('resize',), ('raw-then-read',)] + \
+    return [('route', r) for r in ('constructor', 'call', 'setitem', 'set_val', 'equal', 'like')] + [('read-huge-integer-bias',), ('inference-tolerance',), ('numpy-parameters',), ('object-array-numpy-scalars',)] + [('scaled-target', w_, m_) for w_ in ('out', 'out_like') for m_ in ('raw', 'repr')] + [('carrier', c) for c in ('int8', 'int16', 'int32', 'uint8', 'uint16', 'uint64', 'float32', 'float16', 'Fxp', 'Fxp-scaled', 'int', 'float', 'float64', 'list')] + [('read', 'get_val'), ('read', 'astype'), ('read', '__call__'), ('read', 'element'), ('inferred',), ('resize',), ('raw-then-read',)] + \
            [('params', True, False, True), ('params', False, False, True), ('params', True, True, False), ('params', True, False, False), ('params', False, False, False)]
 
 
@@ -514,3 +518,72 @@ def run_case(case, ctx):
                 if z is not None:
                     _try(lambda: z.get_val())
             _try(lambda: Fxp(int(iv[0]), n_word=rng.randint(8, 16), scale=scale, bias=bias))
+    # parameters given as NumPy numbers (np.float32 / np.float16 scale or bias, NumPy integers up to the limits of int64), object arrays holding
+    # NumPy scalars as carriers: nothing is calculated in the parameter's or the carrier's own narrow type
+    if i % 3 == 2:
+        np_scale = rng.choice([np.float32(float(sc)), np.float16(float(sc)), np.int8(int(sc)) if sc.denominator == 1 else np.float32(float(sc)), scale])
+        np_bias = rng.choice([np.float32(float(bi)), np.float16(float(bi)) if abs(bi) < 1000 else np.float32(float(bi)), np.int16(int(bi)) if bi.denominator == 1 else np.float32(float(bi)), bias])
+        if F(float(np_scale)) == sc and F(float(np_bias)) == bi:
+            kwn = dict(rounding=r, overflow=o, scale=np_scale, bias=np_bias)
+            xn = _try(lambda: Fxp(inp(vs[0]), s, w, nf, **kwn))
+            if xn is not None:
+                _try(lambda: xn.get_val())
+                _try(lambda: xn(inp(vs[-1])))
+                _try(lambda: xn.astype(float))
+            an = _try(lambda: Fxp([float(v) for v in (vs * 3)[:3]], s, w, nf, **kwn))
+            if an is not None:
+                _try(lambda: an.get_val())
+                _try(lambda: an.get_val(index=1))
+                _try(lambda: an.astype(int, item=0))
+                _try(lambda: an.get_val(int, item=1))
+            ctx.floor_hit(('numpy-parameters',))
+        # a NumPy integer bias at the limits of int64 (its absolute value does not exist in int64)
+        for b_ in (np.int64(-2 ** 63), np.int64(2 ** 63 - 1), np.int64(-2 ** 62)):
+            _try(lambda: Fxp(rng.choice([0, 5, -7]), s, w, max(nf, 0) % 4, rounding=r, overflow=o, bias=b_))
+            _try(lambda: Fxp(np.array([0, 5, -7]), True, 16, 0, rounding=r, overflow=o, bias=b_))
+        # object arrays holding narrow NumPy scalars next to python numbers, the NumPy scalar first
+        ints = [v for v in vs if v.denominator == 1 and -128 <= v <= 127]
+        for first in ([np.int8(int(ints[0]))] if ints else []) + [np.int8(rng.choice([100, -100, 27])), np.uint8(rng.choice([163, 200, 5])), np.float32(1.5)]:
+            if not all(G.can_carry(F(first.item()) - bi, 'pyfloat') and G.can_carry((F(first.item()) - bi) / sc, 'pyfloat') for _ in (0,)):
+                continue
+            oa = np.empty(2, dtype=object)
+            oa[:] = [first, float(vs[0])]
+            _try(lambda: Fxp(oa, s, w, nf, **kw))
+            xo = _try(lambda: Fxp(None, s, w, nf, **kw))
+            if xo is not None:
+                _try(lambda: xo.set_val(oa))
+                _try(lambda: xo.get_val())
+            ctx.floor_hit(('object-array-numpy-scalars',))
+    # results of arithmetic stored into a scaled target (out= / out_like=): the target takes the value of the result, by the integer method and
+    # by the value method alike (workload-level check against the exact quantization of (result - b)/s)
+    if i % 4 == 2:
+        fm = ctx.mon.fxpmath
+        wa, wb = rng.randint(3, 8), rng.randint(3, 8)
+        fa, fb = rng.randint(0, 3), rng.randint(0, 3)
+        loa, hia = R.code_range(True, wa)
+        lob, hib = R.code_range(True, wb)
+        ca, cb = [rng.randint(loa, hia) for _ in range(3)], [rng.randint(lob, hib) for _ in range(3)]
+        opn = rng.choice(['add', 'sub', 'mul'])
+        way = rng.choice(['out', 'out_like'])
+        for meth in ('raw', 'repr'):
+            try:
+                xa_ = Fxp(ca, True, wa, fa, raw=True)
+                xb_ = Fxp(cb, True, wb, fb, raw=True)
+                t_ = Fxp(np.zeros(3) if way == 'out' else None, True, 16, rng.choice([2, 4, 6]), rounding=r, overflow=o, scale=scale, bias=bias)
+                tf = (t_.signed, t_.n_word, t_.n_frac)
+                z_ = getattr(fm, opn)(xa_, xb_, method=meth, **{way: t_})
+                got = [int(k) for k in np.asarray(z_.val).ravel().tolist()]
+            except Exception as ex:     # noqa
+                ctx.violation('scaled_target_raises', '%s(..., %s=<scaled %s>, method=%r) raised %s: %s' % (opn, way, R.dtype_fxp(True, 16, 0), meth, type(ex).__name__, str(ex)[:100]), key='scaled.target_raises')
+                continue
+            ex_vals = [{'add': a_ * R.lsb(fa) + b_ * R.lsb(fb), 'sub': a_ * R.lsb(fa) - b_ * R.lsb(fb), 'mul': a_ * R.lsb(fa) * b_ * R.lsb(fb)}[opn] for a_, b_ in zip(ca, cb)]
+            us_ = [(v - bi) / sc for v in ex_vals]
+            if not all(is_double(v) and is_double(v - bi) and is_double(u) and is_double(u * F(2) ** tf[2]) for v, u in zip(ex_vals, us_)):
+                ctx.skip('scaled target:an intermediate is not an exact double')
+                continue
+            exp = [R.overflow_exact(R.round_exact(u * F(2) ** tf[2], r), True, 16, o) for u in us_]
+            if got != exp:
+                ctx.violation('scaled_target', '%s of %s codes %s and %s codes %s into %s=<s16/%d scale=%r bias=%r %s/%s> by method %r: codes %s, Q((result - b)/s) = %s' % (
+                    opn, R.dtype_fxp(True, wa, fa), ca, R.dtype_fxp(True, wb, fb), cb, way, tf[2], scale, bias, r, o, meth, got, exp), key='scaled.target')
+            ctx.judged(('scaled-target', opn, way, meth), True, None, elements=3)
+            ctx.floor_hit(('scaled-target', way, meth))
